@@ -256,6 +256,19 @@ def cases(run):
         yield f"gbm {body}"
         for m in "SLH":
             yield f"gbp {m} {body}"
+    # every mutation kind on its own, on a few documented layouts (no kind is left to chance)
+    for _ in range(6 if quick else 40):
+        p = dict(rng.choice(RT_PROFILES)[1])
+        coll, _seq = GC.gen_rt_collection(rng, p)
+        for fl in "PE":
+            base = GC.ref_records(coll, fl, codon_start=True)
+            for kd in GC.MUTATION_KINDS:
+                recs = GC.mutate_records(rng, base, [kd])
+                run.count(f"recs-mutation-sweep:{kd}")
+                body = enc_recs(recs)
+                yield f"gbm {body}"
+                for m in "SLH":
+                    yield f"gbp {m} {body}"
     # small type sequences: every sequence of <= 4 records over {gene, mRNA, CDS, tRNA, exon} at increasing starts with
     # one tag / two tags / no tag  (the grouping state machines)
     import itertools
